@@ -16,6 +16,7 @@ from pcbverif import alpha  # noqa
 REPO = os.environ.get('PCBVERIF_REPO', '/repo')
 out = {}
 comp = {}
+shape = {}
 for root, dirs, files in os.walk(os.path.join(REPO, 'pcbasic')):
     for f in sorted(files):
         if f.endswith('.py'):
@@ -36,6 +37,14 @@ for root, dirs, files in os.walk(os.path.join(REPO, 'pcbasic')):
                     c[dotted] = texts
             if c:
                 comp[rel] = c
+            sh = {}
+            for dotted, fn in alpha.functions(tree):
+                one = alpha.shape_of(fn)
+                if one:
+                    sh[dotted] = one
+            if sh:
+                shape[rel] = sh
 out['#compare'] = comp
+out['#shape'] = shape
 json.dump(out, open(os.path.join(VERIF, 'pcbverif', 'locals_ref.json'), 'w'), indent=0, sort_keys=True)
-print(len(out) - 1, 'modules', sum(len(v) for k, v in out.items() if k != '#compare'), 'functions with locals', sum(len(v) for v in comp.values()), 'with comparisons')
+print(len(out) - 2, 'modules', sum(len(v) for k, v in out.items() if not k.startswith('#')), 'functions with locals', sum(len(v) for v in comp.values()), 'with comparisons')
